@@ -185,8 +185,10 @@ theorem lineIndexA_reqs (orc : Nat → Bool) (input : Bytes) (a : ASt) :
           Edn.Generated.Tables.newlineInitialCapacity a3 (by decide)
         have hlf : (lfPositions input).length ≤ input.length := by
           rw [lfPositions_eq]; exact lfPositionsScalar_length 0 input
-        have hcap : Edn.Generated.Tables.newlineInitialCapacity = 64 := rfl
-        rw [hcap] at hle
+        -- only `64 ≤ capacity` is used: a larger initial capacity (a tuning constant) keeps the bound
+        have hcap : 64 ≤ Edn.Generated.Tables.newlineInitialCapacity := by decide
+        have hle64 : R * 64 ≤ (lfPositions input).length + 0 :=
+          Nat.le_trans (Nat.mul_le_mul_left R hcap) hle
         rw [hR]
         omega
 
